@@ -134,3 +134,45 @@ Theorem typeof_guard_sound :
     exists v, eval is_unbound env glob imp this_val o_toprim o_iter o_get o_opaque o_annotated rel_prim loose_prim value = ([], Ok v).
 Proof. exact guard_sound. Qed.
 Print Assumptions typeof_guard_sound.
+
+(* ---- how the graph is built (Build.v): part construction and the linker's
+   dependency edges ---- *)
+From V Require Import C04.Build C04.BuildProofs.
+
+(* For EVERY program (any files, any top-level statements, tree shaking on or
+   off, any entry points): in the graph built by splitting the statements into
+   parts and linking symbol uses to declaring parts, every symbol a live part
+   refers to is declared by live parts only - or by no part at all (unbound /
+   external). With dead_parts_pure this is what lets "every removed part is
+   removable" compose to the whole program: no kept code mentions removed code. *)
+Theorem live_parts_define_all_used_symbols : forall ts ign entries prog s i p u t j,
+  let g := link ts ign entries prog in
+  live g (IPart s i) -> get_part g s i = Some p -> In u (p_uses p) -> declares g t j u ->
+  live g (IPart t j) /\ live g (IFile t).
+Proof. exact live_parts_define_uses. Qed.
+Print Assumptions live_parts_define_all_used_symbols.
+
+(* the edges added by the linker's "for ref in SymbolUses: for part in
+   TopLevelSymbolToParts(ref)" loops discharge the hypothesis of
+   live_closed_under_deps, for every graph *)
+Theorem linked_deps_cover_uses : forall g, deps_cover_uses (add_deps g).
+Proof. exact add_deps_covers. Qed.
+Print Assumptions linked_deps_cover_uses.
+
+(* toAST's TopLevelSymbolToParts lists exactly the parts that declare the symbol *)
+Theorem top_level_symbol_to_parts_exact : forall ps u j,
+  In j (top_level_symbol_to_parts ps u) <-> exists q, nth_error ps j = Some q /\ declares_b u q = true.
+Proof. exact top_level_symbol_to_parts_spec. Qed.
+Print Assumptions top_level_symbol_to_parts_exact.
+
+(* splitting loses nothing: with tree shaking on every declarator becomes a part
+   with exactly its declared symbols, uses and removability flag; with tree
+   shaking off the single part contains them and is removable only if all are *)
+Theorem part_construction_keeps_every_declarator : forall stmts d,
+  In d (flat_map stmt_decls stmts) ->
+  (exists q, In q (build_parts true stmts) /\ p_declares q = td_declares d /\ p_uses q = td_uses d /\ p_can_remove q = td_can_remove d)
+  /\ (exists q, In q (build_parts false stmts) /\
+        (forall u, In u (td_declares d) -> In u (p_declares q)) /\ (forall u, In u (td_uses d) -> In u (p_uses q)) /\
+        (p_can_remove q = true -> td_can_remove d = true)).
+Proof. exact build_parts_keeps_decls. Qed.
+Print Assumptions part_construction_keeps_every_declarator.
